@@ -161,7 +161,11 @@ run_cfg(const struct cfg *c, uint64_t unit, vh_rng *rg)
     vh_arena_reset();
     struct rt_desc d;
     setup(c, &d);
+    /* per (type, constraint variant): little-endian/memory and big-endian/callback tables come from the header's
+     * macros, the other two are written field by field */
+    rt_build_mode = c->be == c->custom;
     rt_build(&inst, &d);
+    rt_build_mode = -1;
     RegisterInit ri = register_init(&inst.t);
     if (ri.code != REG_INIT_SUCCESS) {
         vh_fail("init", ckey(c, "register_init"), "code=%d pos=%u", ri.code, ri.pos.entry);
